@@ -241,6 +241,10 @@ func c11RunSession(st *VStream, stats *VStats, r *VRand, bitLen int, nsets int, 
 	}
 	stats.Add("dm.patterns.total", len(pool)+len(kwPool))
 
+	// Build fans out into goroutines: a panic there cannot be recovered by the harness and kills the
+	// process.  Put the session on disk first so that the check can name the failing input.
+	st.ops.Flush()
+	st.impl.Flush()
 	err := m.Build()
 	res := "ok"
 	if err != nil {
@@ -413,7 +417,7 @@ func TestVerifC11Matcher(t *testing.T) {
 	defer st.Close()
 	sessions, maxPat, nq := 150, 2000, 120
 	if VThorough() {
-		sessions, maxPat, nq = 420, 3000, 200
+		sessions, maxPat, nq = 840, 3000, 260
 	}
 	for s := 0; s < sessions; s++ {
 		bitLen := 1024
@@ -431,7 +435,7 @@ func TestVerifC11Matcher(t *testing.T) {
 		if s%12 == 0 {
 			mp = maxPat // a large set now and then
 		}
-		if VThorough() && s%140 == 5 {
+		if VThorough() && s%280 == 5 {
 			mp = 50000 // geosite scale (three sessions)
 			stats.Inc("dm.session.geosite_scale")
 		}
